@@ -34,7 +34,8 @@ def nontrivial(line):
         return None
     return (f["abc"], c, l % c, l // c if l // c < 3 else (3 if l < c * c else 4), m,
             "ff800000" in f.get("pssm", ""), f.get("rows", "-"),
-            "m" if f.get("wrap", "m") == "m" else ("r" if "+" in f.get("wrap", "") else "k"))
+            "m" if f.get("wrap", "m") == "m" else ("r" if "+" in f.get("wrap", "") else "k"),
+            f.get("src", "stripe").split(".")[0])
 
 
 def histogram(line):
@@ -53,7 +54,17 @@ def histogram(line):
             "Lmod=%d" % (l % c) if l % c in (0, 1, c - 1) else "Lmod=other",
             "wrap=" + ("motif" if f.get("wrap") == "m" else ("none" if f.get("wrap") == "0" else
                        ("reconfigured" if "+" in f.get("wrap", "") else "explicit"))),
-            "neginf" if "ff800000" in f.get("pssm", "") else "finite"]
+            "neginf" if "ff800000" in f.get("pssm", "") else "finite",
+            "src=" + f.get("src", "stripe").split(".")[0]]
+    # the driver replays the extracted SIMD kernel models in full below a cost budget and on sampled rows above it
+    # (the observed cells are compared in full with the generic pipeline's either way); counted here
+    k = 5 if f["abc"] == "dna" else 21
+    rows = (l + c - 1) // c
+    if f.get("src", "").startswith("new."):
+        rows += int(f["src"].split(".")[1])
+    cost = c * max(m, 1)
+    over = l >= m >= 1 and (rows * cost * k > 40000 or (c == 32 and rows * cost > 4000))
+    keys.append("kernel-replay=sampled-rows" if over else "kernel-replay=full")
     return keys
 
 
@@ -61,7 +72,7 @@ _COQ_DIR = os.path.join(os.path.dirname(os.path.dirname(os.path.abspath(__file__
 _BASE_FILES = ["ScoreModel.v", "ScorePadModel.v", "SimdModel.v", "GenAvx2.v", "GenLane4.v", "GenScores.v", "ScoresModel.v",
                "ScoreCheck.v", "ScoreProofs.v",
                "SimdProofs.v", "Sse2Proofs.v", "F32Proofs.v", "CheckProofs.v", "ScorePad.v", "ReadmeExample.v", "C01.v",
-               "ScoresProofs.v", "C01Scores.v", "Extract.v"]
+               "ScoresProofs.v", "ScoresProofsWf.v", "C01Scores.v", "Extract.v"]
 # the only files that depend on another model group (coq/stripe, property C04)
 _BRIDGE_FILES = ["StripeBridge.v", "StripePadBridge.v", "C01History.v"]
 
